@@ -182,7 +182,8 @@ class C10(core.Check):
         "function at count mod 4 for every count), rotations / scalar extrusions whose cosine, sine or normal length is irrational "
         "(theorems hold through witnesses, correspondence only on rational instances), Connector's alignment measure (oracle on the "
         "choice of faces only; T_C10_alignment_max bounds the measure), which corner of a Connector becomes which (C18), "
-        "right-handedness of revolved blocks outside the canonical frame (x-axis, half-plane z = 0, y > 0: T_C10_revolve_right_handed)."
+        "outward normals of the (non-planar) lateral sides of revolved blocks (corner Jacobians are proved positive in every frame: "
+        "T_C10_revolve_right_handed_frame)."
     )
     assumptions = [
         "the face/operation model mirrors python list semantics (deque.rotate, list.reverse, stable sort) — validated by correspondence",
